@@ -752,11 +752,17 @@ func checkMarkOwnRecord(c *Ctx, rule string) {
 	// no other function of the package flips a record to used
 	usedV := constIntOf(c.P, repoMod+"/pkg/station/lib", "regStatusUsed")
 	for _, g := range c.funcsOfPkgs("pkg/station/lib") {
-		if g.Name() == "markActive" || onlyCalledFrom(g, "markActive", 2) {
+		if g.Name() == "markActive" {
 			continue
 		}
 		for _, st := range fieldStores(g, "lib.DecoyTimeout", "status") {
 			if cv, isC := constOf(st.Val); isC && cv.ExactString() == usedV {
+				// a setter that markActive hands the record it looked up to is markActive's own store
+				if fa, ok := st.Addr.(*ssa.FieldAddr); ok && onlyCalledFrom(g, "markActive", 1) {
+					if _, isP := fa.X.(*ssa.Parameter); isP {
+						continue
+					}
+				}
 				r.Bad(rule, fnName(g)+": stores regStatusUsed into a timeout record", st.Pos(), fnName(g), "a record is flipped to used outside markActive: a registration that carried no connection is kept (and keeps matching) for the active lifetime")
 			}
 		}
